@@ -32,7 +32,9 @@ struct mstate { int live[NSLOT_MAX]; rseed s[NSLOT_MAX]; unsigned mask; int tabl
 static polyseed_data *SLOT[NSLOT_MAX];
 
 static void tape_for(int table, int variant, uint8_t out[32]) { for (int i = 0; i < 32; i++) out[i] = (uint8_t)(0x3D + 0x61 * table + 0x1F * variant + (0x35 + 2 * variant) * i); }
-static uint64_t clock_for(int table, int variant) { if (variant == 9) return R_EPOCH + (uint64_t)(1024 + 5 + table) * R_STEP + 4242;   /* after the documented range: month index wraps, nothing else may change */
+static uint64_t clock_for(int table, int variant) {
+    if (variant == 9) return R_EPOCH + (uint64_t)1024 * R_STEP + (table ? R_STEP - 1 : 0);   /* the first month after the documented range (its first / last second): the month index wraps to 0, nothing else may change */
+    if (variant == 10) return R_EPOCH + (uint64_t)(2 * 1024 + 609 + table) * R_STEP + 77;      /* more than 2^32 seconds after the epoch */
     return R_EPOCH + (uint64_t)(17 + 400 * table + 101 * variant) * R_STEP + 12345; }
 /* the KDF stub derives the mask from the password bytes it is given, so equal masks <=> equal normalised passwords */
 static void mask_for_pw(const uint8_t *pw, size_t n, uint8_t m[32]) { uint64_t h = 0x1234567; for (size_t i = 0; i < n; i++) h = mix64(h, pw[i]); h = mix64(h, n); for (int i = 0; i < 32; i++) { h = mix64(h, (uint64_t)i); m[i] = (uint8_t)(h >> 24); } }
@@ -102,6 +104,7 @@ static void ledger_oracle(const struct mstate *m, const char *opname) {
     if ((m->nullpat & 2) ? E.n_alloc : E.n_libc_malloc) { snprintf(k, sizeof k, "c18:alloc-source:%s", opname); BADV(k, "%s allocated through %s although the injected table says otherwise (injected calls %lu, libc calls %lu, nullpat %d)", opname, (m->nullpat & 2) ? "the previously injected allocator" : "libc malloc", E.n_alloc, E.n_libc_malloc, m->nullpat); }
     if ((m->nullpat & 4) ? E.n_free : E.n_libc_free) { snprintf(k, sizeof k, "c18:free-source:%s", opname); BADV(k, "%s released memory through %s although the injected table says otherwise (injected calls %lu, libc calls %lu, nullpat %d)", opname, (m->nullpat & 4) ? "the previously injected free" : "libc free", E.n_free, E.n_libc_free, m->nullpat); }
     if ((m->nullpat & 1) ? E.n_time : E.n_libc_time) { snprintf(k, sizeof k, "c18:time-source:%s", opname); BADV(k, "%s read the clock through the wrong source (injected calls %lu, libc calls %lu, nullpat %d)", opname, E.n_time, E.n_libc_time, m->nullpat); }
+    { int o = 1 - m->table; if (E.n_alloc_tab[o] || E.n_free_tab[o] || E.n_mz_tab[o]) { snprintf(k, sizeof k, "c18:stale-table:%s", opname); BADV(k, "%s used functions of the previously injected table %c (alloc %lu, free %lu, memzero %lu calls) although table %c is injected now", opname, 'A' + o, E.n_alloc_tab[o], E.n_free_tab[o], E.n_mz_tab[o], 'A' + m->table); } }
     if (ledger_live() != nlive(m)) { snprintf(k, sizeof k, "c15:ledger:%s", opname); BADV(k, "after %s: %d blocks live but %d seeds live", opname, ledger_live(), nlive(m)); }
     if (E.err_foreign_free) { snprintf(k, sizeof k, "c15:foreign-free:%s", opname); BADV(k, "%s passed an unknown or already freed pointer to free", opname); }
     if (E.err_free_null) { snprintf(k, sizeof k, "c15:free-null:%s", opname); BADV(k, "%s called free(NULL)", opname); }
@@ -387,7 +390,7 @@ static void build_profile(void) {
         static const int CF[] = { 0, 1, 6 };
         for (int s = 0; s < NSLOT; s++) {
             for (int j = 0; j < 3; j++) add_op(O_CREATE, s, CF[j], s, "create(slot%d,features=%d)", s, CF[j]);
-            if (s == 0) { add_op(O_CREATE, s, (int)0xFFFFFF09u, s, "create(slot0,features=0xffffff09)"); add_op(O_CREATE, s, 0, 9, "create(slot0,features=0,clock after 2107)"); }
+            if (s == 0) { add_op(O_CREATE, s, (int)0xFFFFFF09u, s, "create(slot0,features=0xffffff09)"); add_op(O_CREATE, s, 0, 9, "create(slot0,features=0,clock first month after 2107)"); add_op(O_CREATE, s, 0, 10, "create(slot0,features=0,clock 2^32 s after the epoch)"); }
             add_op(O_FREE, s, 0, 0, "free(slot%d)", s);
             for (int p = 0; p < NPW; p++) add_op(O_CRYPT, s, p, 0, "crypt(slot%d,pw%d)", s, p);
             for (int d = 0; d < NSLOT; d++) if (d != s) {
@@ -408,7 +411,7 @@ static void build_profile(void) {
         for (unsigned i = 0; i < sizeof ENABLE_ARGS / sizeof *ENABLE_ARGS; i++) add_op(O_ENABLE, (int)i, 0, 0, "enable_features(%#x)", ENABLE_ARGS[i]);
         static const unsigned CF[] = { 0, 1, 2, 3, 4, 5, 6, 7, 8, 15, 16, 31, 0xFFFFFFFFu };
         for (unsigned j = 0; j < sizeof CF / sizeof *CF; j++) add_op(O_CREATE, 0, (int)CF[j], 0, "create(features=%#x)", CF[j]);
-        add_op(O_CREATE, 0, 0, 9, "create(features=0,clock after 2107)");
+        add_op(O_CREATE, 0, 0, 9, "create(features=0,clock first month after 2107)"); add_op(O_CREATE, 0, 0, 10, "create(features=0,clock 2^32 s after the epoch)");
         add_op(O_INJECT, 0, 0, 0, "inject(A) again");
         add_op(O_FREE, 0, 0, 0, "free"); add_op(O_CRYPT, 0, 0, 0, "crypt(pw)");
         /* reload / recode need a second slot to land in: use slot 1 transiently = not modelled here; use in-place variants */
